@@ -3,6 +3,7 @@ CONSTANTS
   Clients <- MC3Clients
   Reqs <- MC3Reqs
   Bg = "none"
+  Pool <- NoPool
   Handoff = TRUE
 INVARIANT RecvMutex
 INVARIANT CondMutex
